@@ -2164,8 +2164,12 @@ namespace bloch::runtime {
                     m_lastMeasurement[q.qubit] = bit;
             }
         } else if (auto destroy = dynamic_cast<DestroyStatement*>(s)) {
+            // The target becomes a null reference, not an untyped value: the slot keeps its kind
+            // and the static class stamped on it, which later overload choices read.
+            Value cleared;
+            cleared.type = Value::Type::Object;
             if (auto var = dynamic_cast<VariableExpression*>(destroy->target.get())) {
-                assign(var->name, {});
+                assign(var->name, cleared);
                 requestGc();
             } else if (auto mem = dynamic_cast<MemberAccessExpression*>(destroy->target.get())) {
                 Value obj = eval(mem->object.get());
@@ -2174,8 +2178,11 @@ namespace bloch::runtime {
                                               ? findInstanceField(obj.objectValue->cls, mem->member)
                                               : nullptr;
                     if (field) {
-                        if (field->offset < obj.objectValue->fields.size())
-                            obj.objectValue->fields[field->offset] = {};
+                        if (field->offset < obj.objectValue->fields.size()) {
+                            Value& slot = obj.objectValue->fields[field->offset];
+                            cleared.className = slot.className;
+                            storeInSlot(slot, cleared);
+                        }
                         requestGc();
                     }
                 }
